@@ -38,7 +38,8 @@ def run(c):
     LN = lambda t_: {"op": "listnew", "t": t_, "o": "-", "d": "-"}
     LA = lambda o, d: {"op": "listappend", "t": "-", "o": o, "d": d}
     AL = {"op": "appendlist", "t": "-", "o": "-", "d": "-"}
-    targeted = [[A("sha256", "o1", "h1"), A("sha256", "o2", "h2"), LN("sha256"), LA("o2", "h2"), LA("o2", "h1"), AL, A("x509", "o1", "c1")],
+    targeted = [[LN("x509"), LA("o1", "c1"), LA("o2", "c3"), LA("o2", "p1"), AL], [A("sha256", "o1", "h1"), LN("x509"), LA("o1", "c1"), LA("o2", "c3"), LA("o1", "p1"), AL],
+                [A("sha256", "o1", "h1"), A("sha256", "o2", "h2"), LN("sha256"), LA("o2", "h2"), LA("o2", "h1"), AL, A("x509", "o1", "c1")],
                [A("x509", "o1", "c1"), LN("x509"), LA("o1", "c1"), LA("o2", "c2"), AL, LN("x509"), LA("o2", "c2"), AL],
                [LN("sha256"), LA("o1", "h1"), AL, LN("sha256"), LA("o1", "h1"), LA("o1", "h2"), AL, {"op": "remove", "t": "sha256", "o": "o1", "d": "h1"}]]
     scen = []
